@@ -22,7 +22,7 @@ RULE = (
     "daughter, as parameter word, as alias/mother name), and all ordered pairs (p,q) of published names with p a proper prefix "
     "of q on adjacent lines, each also with 1-3 user-registered names present. Hypothesis: user-registered names over "
     "letters, digits, '_', '-' (first and last character a word character) incl. prefixes/extensions of published names and "
-    "of each other, registered in one or several calls with grammar()/grammar_info() called before, between or after, or after a first (failed) parse(); "
+    "of each other, registered in one or several calls with grammar()/grammar_info() called before, between or after, or after a first (failed) parse(), or parsed twice; "
     "near-miss unknown words (one character changed/dropped/added, case flipped, two names glued) in the model position "
     "with no/numeric/word parameters must make parse() raise. Non-trivial: a line whose model has a published or registered "
     "proper prefix/extension also present in the same file (exhaustive contexts are distinct by construction)."
@@ -214,7 +214,7 @@ def c06_case(draw):
                 call.append(m)
         if call:
             calls.append(call)
-    timing = draw(st.sampled_from(("plain", "plain", "grammar-before", "grammar_info-before", "grammar-between", "grammar-after", "parse-before")))
+    timing = draw(st.sampled_from(("plain", "plain", "grammar-before", "grammar_info-before", "grammar-between", "grammar-after", "parse-before", "parse-twice")))
     known = set(N.MODELS) | set(allnames)
     # labels must be safe with respect to the registered names too, and different from them
     labels = []
@@ -286,6 +286,8 @@ def check_case(c, rec):
         with impl(ID, "parse"), warnings.catch_warnings():
             warnings.simplefilter("ignore")
             p.parse()
+            if c["timing"] == "parse-twice":
+                p.parse()  # the registration must still hold for a second parse of the same instance
         want = [(ln["fs"], ("PHOTOS " if ln["photos"] else "") + ln["model"],
                  [float(x) if not N.safe_label(x, tuple(allnames)) else x for x in ln["params"]]) for ln in c["lines"]]
         got = details(p, "M0")
